@@ -1,6 +1,32 @@
-"""C05 - queue family check (see lib/queuefam.py)."""
+"""C05 - queue family check (see lib/queuefam.py) + a consumer that is already waiting inside a long-polling dequeue."""
+import json
+import os
+
+from lib import common as C
 from lib import queuefam
 
 
+def long_poll(ctx, info, rng, *rest):
+    """the queue model has no waiting calls (a long poll is a sequence of dequeue attempts); that every attempt of the wait looks at
+    the queue as it is then - expired leases released, matured delays due, new messages - is judged on the stores directly"""
+    d = os.path.join(ctx.scratch, "lp")
+    os.makedirs(d, exist_ok=True)
+    rc, out, err = C.harness_run(info["hbin"], ["long-poll"], {"dir": d, "max_wait_ms": 600}, timeout=120)
+    if rc != 0:
+        raise RuntimeError("long-poll failed: " + err[-1500:])
+    rows = json.loads(out)["rows"]
+    for r in rows:
+        want = 0 if r["scenario"] == "nothing-becomes-ready" else 1
+        if r.get("err") or r["items"] != want:
+            C.report(ctx, "long-poll:%s:%s" % (r["backend"], r["scenario"]),
+                     "a dequeue waiting with max_wait 600 ms returned %s item(s) after %d ms (%s); a message became ready 40 ms into the wait "
+                     "(%s): want %d" % (r["items"], r["waited_ms"], r.get("err") or "no error", r["scenario"], want),
+                     {"kind": "history", "case": {"backend": r["backend"], "scenario": r["scenario"], "max_wait_ms": 600,
+                                                  "calls": ["(set-up: enqueue / lease with ttl 50 ms / nack with delay 50 ms)", "clock +20 ms", "Dequeue(batch 5, max_wait 600 ms) starts",
+                                                            "40 ms later: clock +1 s (lease expires / delay matures) or Enqueue"]},
+                      "observed": r})
+    return {"long_poll": {"cases": len(rows), "waited_ms": {"%s:%s" % (r["backend"], r["scenario"]): r["waited_ms"] for r in rows}}}
+
+
 def main(ctx, replay):
-    return queuefam.run_property(ctx, "C05", 150, 3000)
+    return queuefam.run_property(ctx, "C05", 150, 3000, extra=long_poll)
